@@ -67,6 +67,13 @@ def _register_abstract_classes(repo):
         tr = repo.module(M.M_TRANS)
         absint.register_class("Transition", repo, tr.classes["Transition"])
         absint.register_class("Event", repo, tr.classes["Event"])
+        absint.ENUM_VALUES.clear()
+        import ast as _ast
+        for cname, ci in tr.classes.items():
+            if any((getattr(b, "id", None) or getattr(b, "attr", None)) == "Enum" for b in ci.node.bases):
+                for st in ci.node.body:
+                    if isinstance(st, _ast.Assign) and len(st.targets) == 1 and isinstance(st.targets[0], _ast.Name) and isinstance(st.value, _ast.Constant):
+                        absint.ENUM_VALUES[st.targets[0].id] = st.value.value
     except (AnalysisError, KeyError):
         pass
 
